@@ -2899,7 +2899,13 @@ func (dsc *dataStoreCommand) setRemove(keyName string, members []string) (output
 	for _, member := range members {
 		if m.remove(member) {
 			removals++
+			dsc.setDirty()
 		}
+	}
+
+	// a set never exists empty
+	if m.count == 0 {
+		dsc.ds.data.remove(keyName)
 	}
 
 	output.data = respInt(removals)
